@@ -292,6 +292,7 @@ type c36Client struct {
 	attached int                  // what the server has attached, as the client can know it (-1 none)
 	held     []c36Held
 	broken   string // first transport-level failure
+	sentPtr  []bool // for the last call: was the request / each sent input a pointer batch
 }
 
 func newC36Client(segs []*vgirpc.ShmSegment, useShm bool) *c36Client {
@@ -486,6 +487,7 @@ func (cl *c36Client) unary(method, adv string, params arrow.RecordBatch, via str
 	mk, mv, _ := cl.requestMeta(method, adv)
 	w := cl.send(params, via, cl.attached, mk, mv)
 	defer w.batch.Release()
+	cl.sentPtr = []bool{w.isPtr}
 	cl.writeStream(w)
 	rd, err := ipc.NewReader(cl.s2c)
 	if err != nil {
@@ -517,6 +519,7 @@ func (cl *c36Client) stream(method, adv string, params arrow.RecordBatch, via st
 	mk, mv, hasName := cl.requestMeta(method, adv)
 	w := cl.send(params, via, cl.attached, mk, mv)
 	defer w.batch.Release()
+	cl.sentPtr = []bool{w.isPtr}
 	cl.writeStream(w)
 	engaged := -1
 	if cl.attached >= 0 && (hasName || w.isPtr) {
@@ -531,6 +534,7 @@ func (cl *c36Client) stream(method, adv string, params arrow.RecordBatch, via st
 			return false
 		}
 		cur = cl.send(turns[sent].input, turns[sent].via, engaged, nil, nil)
+		cl.sentPtr = append(cl.sentPtr, cur.isPtr)
 		if err := iw.Write(cur.batch); err != nil && cl.broken == "" {
 			cl.broken = "input write: " + err.Error()
 		}
@@ -756,7 +760,7 @@ func c36Exec(c *Case) {
 			items := cl.unary(method, adv, params, via, hold)
 			pitems := plain.unary(method, "-", params, "i", false)
 			params.Release()
-			c36Oracles(c, l, via, nil, items, pitems, everGood)
+			c36Oracles(c, l, via, nil, cl.sentPtr, items, pitems, everGood, false)
 			c.Stat("unary-" + method)
 			c.Out(ml, report(items))
 		case "stream":
@@ -840,7 +844,7 @@ func c36Exec(c *Case) {
 				t.input.Release()
 			}
 			params.Release()
-			c36Oracles(c, l, via, vias, items, pitems, everGood)
+			c36Oracles(c, l, via, vias, cl.sentPtr, items, pitems, everGood, initErr != "-")
 			c.Stat("stream-" + method)
 			c.Out(ml, report(items))
 		default:
@@ -865,31 +869,38 @@ func c36Exec(c *Case) {
 }
 
 // c36Oracles states the property on the real outputs of one call: same results as the plain
-// session when the client is well behaved; an error (and nothing else) for a pointer sent where
-// no segment was ever advertised.
-func c36Oracles(c *Case, l, via string, vias []string, items, pitems []string, everGood bool) {
+// session when the client is well behaved; a framework error (and nothing after it) for a pointer
+// batch the server has no way to resolve, with everything before it as in the plain session.
+func c36Oracles(c *Case, l, via string, vias []string, sentPtr []bool, items, pitems []string, everGood, initErr bool) {
 	misuseAt := -2 // -1: the request; i: turn i
-	if !c36ViaPlain(via) {
-		misuseAt = -1
-	} else {
-		for i, v := range vias {
-			if !c36ViaPlain(v) {
-				misuseAt = i
-				break
+	all := append([]string{via}, vias...)
+	for i, v := range all {
+		if !c36ViaPlain(v) && i < len(sentPtr) && sentPtr[i] {
+			misuseAt = i - 1
+			break
+		}
+	}
+	got, want := c36View(items), c36View(pitems)
+	reached := misuseAt != -2
+	if misuseAt >= 0 {
+		// a turn is reached only if the call got past init and every earlier turn was answered
+		if initErr || len(want) < misuseAt {
+			reached = false
+		}
+		for i := 0; i < misuseAt && i < len(want); i++ {
+			if !strings.HasPrefix(want[i], "ok:") {
+				reached = false
 			}
 		}
 	}
-	if misuseAt == -2 {
-		a, b := strings.Join(c36View(items), ","), strings.Join(c36View(pitems), ",")
-		if a != b {
-			c.Oracle("shm-result-differs", fmt.Sprintf("%q: with segment %s, without %s", l, a, b))
+	if !reached {
+		// no unresolvable pointer was sent (or the call ended before reaching it)
+		if strings.Join(got, ",") != strings.Join(want, ",") {
+			c.Oracle("shm-result-differs", fmt.Sprintf("%q: with segment %v, without %v", l, got, want))
 		}
 		return
 	}
 	c.Stat("misuse-call")
-	// results before the misused batch must match the plain run; the misused batch must be refused
-	want := c36View(pitems)
-	got := c36View(items)
 	pos := 0
 	if misuseAt >= 0 {
 		pos = misuseAt
